@@ -37,6 +37,7 @@ type SimFS struct {
 	Root    string
 	files   map[string][]byte
 	dirs    map[string]bool
+	links   map[string]string // symbolic links: path -> target (absolute, or relative to the link's directory)
 	Log     []FSOp
 	nmut    int
 	Fault   *FSFault
@@ -49,7 +50,7 @@ type SimFS struct {
 var FS *SimFS
 
 func NewSimFS(root string) *SimFS {
-	f := &SimFS{Root: filepath.Clean(root), files: map[string][]byte{}, dirs: map[string]bool{}, Fired: map[string]int{}}
+	f := &SimFS{Root: filepath.Clean(root), files: map[string][]byte{}, dirs: map[string]bool{}, links: map[string]string{}, Fired: map[string]int{}}
 	f.dirs[f.Root] = true
 	return f
 }
@@ -72,12 +73,13 @@ type fsSnapshot struct {
 	Root  string            `json:"root"`
 	Files map[string][]byte `json:"files"`
 	Dirs  []string          `json:"dirs"`
+	Links map[string]string `json:"links,omitempty"`
 }
 
 func (f *SimFS) Snapshot() []byte {
 	f.mu.Lock()
 	defer f.mu.Unlock()
-	s := fsSnapshot{Root: f.Root, Files: f.files}
+	s := fsSnapshot{Root: f.Root, Files: f.files, Links: f.links}
 	for d := range f.dirs {
 		s.Dirs = append(s.Dirs, d)
 	}
@@ -98,6 +100,9 @@ func LoadSimFS(b []byte) (*SimFS, error) {
 	for _, d := range s.Dirs {
 		f.dirs[d] = true
 	}
+	for k, v := range s.Links {
+		f.links[k] = v
+	}
 	return f, nil
 }
 
@@ -109,7 +114,72 @@ func (f *SimFS) Tree() map[string][]byte {
 	for k, v := range f.files {
 		out[k] = v
 	}
+	for k, v := range f.links {
+		out[k] = []byte(SymlinkContentPrefix + v) // a link is an entry of its directory like any file
+	}
 	return out
+}
+
+// SymlinkContentPrefix marks symbolic links in Tree().
+const SymlinkContentPrefix = "\x00symlink -> "
+
+// PlantLink creates a symbolic link directly (harness set-up; not logged, not faulted).
+func (f *SimFS) PlantLink(path, target string) {
+	f.mu.Lock()
+	defer f.mu.Unlock()
+	path = filepath.Clean(path)
+	for d := filepath.Dir(path); f.inside(d); d = filepath.Dir(d) {
+		f.dirs[d] = true
+		if d == f.Root {
+			break
+		}
+	}
+	f.links[path] = target
+}
+
+// Unplant removes a file or link directly (harness set-up).
+func (f *SimFS) Unplant(path string) {
+	f.mu.Lock()
+	defer f.mu.Unlock()
+	delete(f.files, filepath.Clean(path))
+	delete(f.links, filepath.Clean(path))
+}
+
+// resolve follows symbolic links that live inside Root: every intermediate component, and the last
+// one if followLast. The result may lie outside Root (a link may point anywhere). Caller holds f.mu.
+func (f *SimFS) resolve(p string, followLast bool) string {
+	for hops := 0; hops < 40 && len(f.links) > 0 && f.inside(p); hops++ {
+		comps := strings.Split(strings.Trim(strings.TrimPrefix(p, f.Root), string(os.PathSeparator)), string(os.PathSeparator))
+		cur := f.Root
+		changed := false
+		for i, c := range comps {
+			if c == "" {
+				continue
+			}
+			next := cur + string(os.PathSeparator) + c
+			if t, ok := f.links[next]; ok && (i < len(comps)-1 || followLast) {
+				if !filepath.IsAbs(t) {
+					t = filepath.Join(cur, t)
+				}
+				p = filepath.Join(append([]string{t}, comps[i+1:]...)...)
+				changed = true
+				break
+			}
+			cur = next
+		}
+		if !changed {
+			break
+		}
+	}
+	return p
+}
+
+// locate turns a name into its absolute location with symbolic links resolved.
+func (f *SimFS) locate(name string, followLast bool) string {
+	p := abs(name)
+	f.mu.Lock()
+	defer f.mu.Unlock()
+	return f.resolve(p, followLast)
 }
 
 func (f *SimFS) DirList() []string {
@@ -199,9 +269,9 @@ func FSReadFile(name string) ([]byte, error) {
 		return os.ReadFile(name)
 	}
 	Yield("simfs.read")
-	p := abs(name)
+	p := f.locate(name, true)
 	if !f.inside(p) {
-		return os.ReadFile(name)
+		return os.ReadFile(p)
 	}
 	f.mu.Lock()
 	defer f.mu.Unlock()
@@ -220,7 +290,7 @@ func FSWriteFile(name string, data []byte, perm os.FileMode) error {
 		return os.WriteFile(name, data, perm)
 	}
 	Yield("simfs.write")
-	p := abs(name)
+	p := f.locate(name, true)
 	f.mu.Lock()
 	defer f.mu.Unlock()
 	if !f.inside(p) {
@@ -249,9 +319,12 @@ func FSMkdir(name string, perm os.FileMode) error {
 		return os.Mkdir(name, perm)
 	}
 	Yield("simfs.mkdir")
-	p := abs(name)
+	p := f.locate(name, false)
 	f.mu.Lock()
 	defer f.mu.Unlock()
+	if _, isLink := f.links[p]; isLink {
+		return &fs.PathError{Op: "mkdir", Path: name, Err: fs.ErrExist}
+	}
 	if !f.inside(p) {
 		if st, err := os.Stat(p); err == nil && st.IsDir() {
 			return &fs.PathError{Op: "mkdir", Path: name, Err: fs.ErrExist}
@@ -280,7 +353,7 @@ func FSMkdirAll(name string, perm os.FileMode) error {
 		return os.MkdirAll(name, perm)
 	}
 	Yield("simfs.mkdirall")
-	p := abs(name)
+	p := f.locate(name, true)
 	f.mu.Lock()
 	defer f.mu.Unlock()
 	if !f.inside(p) {
@@ -309,11 +382,15 @@ type simInfo struct {
 	name string
 	size int64
 	dir  bool
+	link bool
 }
 
 func (i simInfo) Name() string { return i.name }
 func (i simInfo) Size() int64  { return i.size }
 func (i simInfo) Mode() fs.FileMode {
+	if i.link {
+		return fs.ModeSymlink | 0o777
+	}
 	if i.dir {
 		return fs.ModeDir | 0o755
 	}
@@ -338,6 +415,11 @@ func (f *SimFS) children(p string) []simInfo {
 			seen[k[len(prefix):]] = simInfo{name: k[len(prefix):], dir: true}
 		}
 	}
+	for k, v := range f.links {
+		if strings.HasPrefix(k, prefix) && !strings.Contains(k[len(prefix):], string(os.PathSeparator)) {
+			seen[k[len(prefix):]] = simInfo{name: k[len(prefix):], size: int64(len(v)), link: true}
+		}
+	}
 	out := make([]simInfo, 0, len(seen))
 	for _, v := range seen {
 		out = append(out, v)
@@ -353,9 +435,9 @@ func FSReadDir(name string) ([]os.DirEntry, error) {
 		return os.ReadDir(name)
 	}
 	Yield("simfs.readdir")
-	p := abs(name)
+	p := f.locate(name, true)
 	if !f.inside(p) {
-		return os.ReadDir(name)
+		return os.ReadDir(p)
 	}
 	f.mu.Lock()
 	defer f.mu.Unlock()
@@ -391,11 +473,18 @@ func FSRemove(name string) error {
 		return os.Remove(name)
 	}
 	Yield("simfs.remove")
-	p := abs(name)
+	p := f.locate(name, false)
 	f.mu.Lock()
 	defer f.mu.Unlock()
 	if !f.inside(p) {
 		return f.escape("remove", p)
+	}
+	if _, ok := f.links[p]; ok { // removes the link, never what it points at
+		if ok, _, err := f.mutate("remove", p, 0); !ok {
+			return err
+		}
+		delete(f.links, p)
+		return nil
 	}
 	if _, ok := f.files[p]; ok {
 		if ok, _, err := f.mutate("remove", p, 0); !ok {
@@ -422,7 +511,7 @@ func FSRemoveAll(name string) error {
 	if f == nil {
 		return os.RemoveAll(name)
 	}
-	p := abs(name)
+	p := f.locate(name, false)
 	f.mu.Lock()
 	defer f.mu.Unlock()
 	if !f.inside(p) {
@@ -441,6 +530,11 @@ func FSRemoveAll(name string) error {
 			delete(f.dirs, k)
 		}
 	}
+	for k := range f.links { // links below p go; their targets are not followed
+		if k == p || strings.HasPrefix(k, p+string(os.PathSeparator)) {
+			delete(f.links, k)
+		}
+	}
 	return nil
 }
 
@@ -449,11 +543,20 @@ func FSRename(oldp, newp string) error {
 	if f == nil {
 		return os.Rename(oldp, newp)
 	}
-	a, b := abs(oldp), abs(newp)
+	a, b := f.locate(oldp, false), f.locate(newp, false)
 	f.mu.Lock()
 	defer f.mu.Unlock()
 	if !f.inside(a) || !f.inside(b) {
 		return f.escape("rename", a+" -> "+b)
+	}
+	if t, isLink := f.links[a]; isLink {
+		if ok, _, err := f.mutate("rename", a+" -> "+b, 0); !ok {
+			return err
+		}
+		delete(f.links, a)
+		delete(f.files, b)
+		f.links[b] = t
+		return nil
 	}
 	data, ok := f.files[a]
 	if !ok {
@@ -463,21 +566,94 @@ func FSRename(oldp, newp string) error {
 		return err
 	}
 	delete(f.files, a)
+	delete(f.links, b)
 	f.files[b] = data
 	return nil
 }
 
-func FSStat(name string) (fs.FileInfo, error) {
+func FSStat(name string) (fs.FileInfo, error) { return fsStat(name, true) }
+
+// FSLstat does not follow a symbolic link in the last component.
+func FSLstat(name string) (fs.FileInfo, error) { return fsStat(name, false) }
+
+func FSSymlink(target, name string) error {
 	f := FS
 	if f == nil {
-		return os.Stat(name)
+		return os.Symlink(target, name)
 	}
-	p := abs(name)
+	p := f.locate(name, false)
+	f.mu.Lock()
+	defer f.mu.Unlock()
 	if !f.inside(p) {
-		return os.Stat(name)
+		return f.escape("symlink", p)
+	}
+	_, isFile := f.files[p]
+	_, isLink := f.links[p]
+	if isFile || isLink || f.dirs[p] {
+		return &fs.PathError{Op: "symlink", Path: name, Err: fs.ErrExist}
+	}
+	if !f.dirs[filepath.Dir(p)] {
+		return &fs.PathError{Op: "symlink", Path: name, Err: fs.ErrNotExist}
+	}
+	if ok, _, err := f.mutate("symlink", p, 0); !ok {
+		return err
+	}
+	f.links[p] = target
+	return nil
+}
+
+func FSReadlink(name string) (string, error) {
+	f := FS
+	if f == nil {
+		return os.Readlink(name)
+	}
+	p := f.locate(name, false)
+	if !f.inside(p) {
+		return os.Readlink(p)
 	}
 	f.mu.Lock()
 	defer f.mu.Unlock()
+	if t, ok := f.links[p]; ok {
+		return t, nil
+	}
+	return "", &fs.PathError{Op: "readlink", Path: name, Err: syscall.EINVAL}
+}
+
+func FSEvalSymlinks(name string) (string, error) {
+	f := FS
+	if f == nil {
+		return filepath.EvalSymlinks(name)
+	}
+	p := f.locate(name, true)
+	if !f.inside(p) {
+		return filepath.EvalSymlinks(p)
+	}
+	if _, err := fsStat(p, true); err != nil {
+		return "", err
+	}
+	return p, nil
+}
+
+func fsStat(name string, follow bool) (fs.FileInfo, error) {
+	f := FS
+	if f == nil {
+		if follow {
+			return os.Stat(name)
+		}
+		return os.Lstat(name)
+	}
+	p := f.locate(name, follow)
+	if !f.inside(p) {
+		if follow {
+			return os.Stat(p)
+		}
+		return os.Lstat(p)
+	}
+	f.mu.Lock()
+	defer f.mu.Unlock()
+	if t, ok := f.links[p]; ok && !follow {
+		return simInfo{name: filepath.Base(p), size: int64(len(t)), link: true}, nil
+	}
 	if b, ok := f.files[p]; ok {
 		return simInfo{name: filepath.Base(p), size: int64(len(b))}, nil
 	}
@@ -553,12 +729,15 @@ func FSWalk(root string, fn filepath.WalkFunc) error {
 	if f == nil || !f.inside(abs(root)) {
 		return filepath.Walk(root, fn)
 	}
-	p := abs(root)
+	p := f.locate(root, false)
 	f.mu.Lock()
 	b, isFile := f.files[p]
 	isDir := f.dirs[p]
+	t, isLink := f.links[p]
 	f.mu.Unlock()
 	switch {
+	case isLink: // filepath.Walk does not follow symbolic links
+		return fn(root, simInfo{name: filepath.Base(p), size: int64(len(t)), link: true}, nil)
 	case isFile:
 		return fn(root, simInfo{name: filepath.Base(p), size: int64(len(b))}, nil)
 	case isDir:
